@@ -28,6 +28,7 @@ def main(tier):
         inv = ('Emit', 'AlgoEqDecl') if (tier == 'thorough' or label in ('attr1', 'logic4', 'struct3')) else ('Emit',)
         replay.run_cfg(chk, module, consts, label, invariants=inv)
     trace_part(chk, tier)
+    ir_part(chk, tier)
     return chk.finish()
 
 
@@ -50,3 +51,34 @@ def trace_part(chk, tier):
     import json
     e = json.loads(lines[0])
     chk.sample({'trace_event': {'css': e['css'], 'target': e['target'], 'res': e['res'], 'nodes': len(e['doc']['parent'])}}, cap=13)
+
+
+def ir_part(chk, tier):
+    """B2 for the I stratum: the IR the real parser builds for random selectors of the modelled grammar must equal
+    Ir!Compile(ast) (Trace_Ir.tla); binds Ir.tla - which TLC proves equal to CssDecl on every enumerated document - to the code."""
+    import json
+    import random
+    from harness import gen, trace, irproj, sel as selmod
+    sv, bs4 = common.import_repo()
+    from soupsieve import css_types as ct
+    rng = random.Random(common.SEED * 7919 + 3)
+    gen.EXCLUDE = set()
+    lines = []
+    n = 400 if tier == 'quick' else 6000
+    skipped = 0
+    for k in range(n):
+        ast = gen.rand_list(rng, depth=rng.choice([0, 1, 2, 2, 3]))
+        css = selmod.selector_list(ast)
+        try:
+            obj = sv.compile(css)
+            ir = irproj.proj_list(ct, obj.selectors)
+        except irproj.OutOfModel:
+            skipped += 1
+            continue
+        except Exception as e:
+            chk.violation('ir|compile|' + css, 'compile(%r) raised %s' % (css, type(e).__name__), {'cfg': 'ir', 'selector': css})
+            continue
+        lines.append(json.dumps({'id': 'ir%d' % k, 'sel': ast, 'ir': ir, 'pool': [common.cps(v) for v in irproj.VALUE_POOL], 'css': css,
+                                 'res': 'IR'}))
+    trace.validate(chk, lines, 'Trace_Ir', 'trace-ir', batch=500)
+    chk.sample({'ir_event': json.loads(lines[0])['css']}, cap=15)
